@@ -19,7 +19,27 @@ Contracts (DESIGN §2 C07), all evaluated on the REAL functions of the tree unde
      in the same order; every bond is a tree edge or recorded exactly once as a closure (front -> earlier atom) with the right
      bond object - never both, never twice.
  (3) `lazy_product(*gens)`: multiset equal to itertools.product for <= 3 one-shot generators of <= 4 items (empty ones
-     included, repeated values included); lazy: when the k-th tuple is produced no generator has been asked for more than k items.
+     included, repeated values included), 4 generators of <= 3 items, and plain re-iterable arguments (lists / tuples / ranges);
+     lazy: when the k-th tuple is produced no generator has been asked for more than k items.
+
+Coverage audit extension (same contracts, wider domain; every addition has its own run.bound line):
+  * targets whose atom numbers are NOT 1..N in insertion order (seeded sample of 1..2999: gaps, descending, > 999; atoms and bonds
+    inserted in shuffled order); radicals, explicit hydrogens, deuterium, charged aromatic rings, stereo labels among the fixed targets;
+  * patterns: 3- and 4-component patterns (more components than the target has included), queries built through the public
+    QueryContainer.add_atom(Element) / add_bond(Bond) API on sparse shuffled numbers, SMARTS instances re-numbered with remap(),
+    masked / mapped / radical / isotope / hydrogen SMARTS, in-place unions of queries; the EMPTY pattern and the EMPTY target;
+  * options: the default `_cython` switch of QueryIsomorphism.get_mapping (import fallback), scopes given as tuple / frozenset / dict
+    view and with numbers that are not atoms of the target, `match_stereo=True` of MoleculeIsomorphism.get_mapping, `is_automorphic`;
+  * stereo filter of QueryIsomorphism.get_mapping (clause `stereo`): the returned mappings are members of the stereo-blind reference
+    set without duplicates; a mapping never survives on a target AND on its mirror image (every atom / bond label inverted); for a
+    query with ONE stereo mark the two result sets partition the reference embeddings whose image of the marked atom / bond carries a
+    label; the filtered search keeps exactly one mapping per image set of the unfiltered result; scope and operators agree;
+  * `match_stereo=True` (clause `ms`): every mapping is a reference embedding, filtered ones have pairwise different image sets,
+    unfiltered ones are pairwise different; for label-free connected patterns cut WITH hydrogen recalculation from a label-free target
+    the image sets (filtered) and the mapping set (unfiltered) equal the reference's; a fixed table of whole-molecule stereo pairs
+    (enantiomers do not match, identical and meso forms do);
+  * call sequences (clause `seq`): search - edit pattern or target through the public editing API - search again (cached linear
+    order / connected components must follow the edit); two and three generators of one pattern consumed interleaved.
 """
 import itertools
 import json
@@ -40,7 +60,11 @@ SMARTS = ['[C;D2]', '[N,O]', '[A]', '[C;r5,r6]', 'C-,=C', 'C-;!@C', 'C-;@C', 'C=
           '[A]-[A]-[A]', '[A]=[A]-[A]', '[N,O;D1]-[C;D2,D3]', '[C;D2][C;D2][C;D2]', '[O,N;x0;z1]C', '[C;D1;h3]C',
           'C1CC1', 'C1CCC1', '[A]1-[A]-[A]-[A]-[A]1', 'C1=CC=CC=C1', 'C:1:C:C:C:C:C1', '[C,N]1[A][A]1', 'C1C[N,O]C1',
           '[M]', '[M]-C', '[13C]', '[13C]C',
-          '[C;D2].[O;D1]', '[N,O].[N,O]', '[A].[A]', 'CC.CC', 'C=C.[N,O]', '[C;D1]-[C;D2].[C;D1]-[A;D3]', 'C1CC1.C']
+          '[C;D2].[O;D1]', '[N,O].[N,O]', '[A].[A]', 'CC.CC', 'C=C.[N,O]', '[C;D1]-[C;D2].[C;D1]-[A;D3]', 'C1CC1.C',
+          # audit extension: masked atoms (numbers > 10**9), mapped atoms (numbers given by the text), CXSMARTS radicals, hydrogen and
+          # deuterium atoms, three and four components
+          '[C;M]', '[C;M]-[O,N]', '[C:7]-[A:3]', '[C:12][C:5][A:9]', '[C;D1] |^1:0|', 'C-[C] |^1:1|', '[H]', '[H]C', '[2H]', '[2H]C',
+          '[C;a]:[N;a;+]', '[N;a;h1]', '[A].[A].[A]', '[C;D1].[O,N].[C;D2]', 'CC.[O;D1].[N,O]', '[A].[A].[A].[A]']
 
 # whole-graph automorphism contract on molecules with several components is evaluated on this fixed list (see bounded())
 MULTI_AUTO = ['C.C', 'CC.CC', 'C1CC1.C1CC1', 'CO.CO', 'C.CC', 'CO.CC', 'CC.CCC', 'CN.CO', 'C=C.CC']
@@ -49,6 +73,12 @@ MULTI_AUTO = ['C.C', 'CC.CC', 'C1CC1.C1CC1', 'CO.CO', 'C.CC', 'CO.CC', 'CC.CCC',
 FIXED = ['C[N+](C)(C)C', 'CC(=O)[O-]', '[O-][N+](=O)c1ccccc1', 'c1ccccc1C', 'C[13CH2]C', '[13CH3]C.C[13CH3]', 'C#N.CC#N', '[Na+].[Cl-]', 'C[Mg]Br',
          'C[N+](C)(C)C.CC(=O)[O-]', 'NC(=O)C1CC1', 'C[Li].C[Li]']
 FIXED_RAW = ['C1=CC=CC=C1', 'C1=CC=CC=C1.C1=CC=CC=C1']  # parsed without thiele(): Kekule form kept
+# audit extension: radicals, explicit hydrogens, deuterium, single atoms, charged / N-H aromatic rings, labelled stereo centres and double
+# bonds, an allene, three and four components
+FIXED2 = ['C[CH2]', 'C[CH]C', '[CH3].[CH3]', 'C[CH2].CC', '[H]C([H])([H])O', '[2H]C([2H])O', '[H][H]', '[H]O[H].O', 'O', '[NH4+]', '[H+].[OH-]',
+          'c1cc[nH]c1', 'C[n+]1ccccc1', '[O-][n+]1ccccc1', 'c1ccncc1.c1cc[nH]c1', 'C[C@H](N)O', 'C[C@H](N)O.C[C@@H](N)O', 'C/C=C/C',
+          'C/C=C\\C.C/C=C/C', 'CC=[C@]=CC', 'C[C@H](O)[C@@H](O)C', 'C.C.C', 'C.CC.C', 'CO.CN.CO', 'C.C.C.C', 'CC.O.N.CC', 'C[S+](C)[O-]',
+          'C[Zn]C', '[Cu+2].[O-]C=O.[O-]C=O']
 
 MAXV = 6  # violations reported per work item
 
